@@ -88,14 +88,23 @@ def run_lifecycle(hist, max_handles=3):
                 if any(g['clear'] for g in m.groups.values()) or (clear and m.groups):
                     return None, m, True        # two groups on one directory where one clears: not specified
                 expect_refusal = dir_state(d) and not reuse       # the statement speaks about a NON-EMPTY directory
+                refused, err = False, None
                 try:
                     ds = pipeline().diskcache(cache_dir=d, reuse=reuse, clear=clear)
                 except RuntimeError as e:
+                    refused = True
                     if not expect_refusal:
-                        return (n, ev, f'open refused: {e}'), m, False
-                    continue
+                        err = f'open refused: {e}'
                 except Exception as e:      # noqa: BLE001
-                    return (n, ev, f'open raised {type(e).__name__}: {e}'), m, False
+                    err = f'open raised {type(e).__name__}: {e}'
+                if err is not None:
+                    return (n, ev, err), m, False
+                if refused:
+                    # outside the except block, so that the half-built objects of the refused open are released
+                    gc.collect()
+                    if not dir_state(d):
+                        return (n, ev, 'the refused open removed the existing cache directory'), m, False
+                    continue
                 if expect_refusal:
                     return (n, ev, 'a non-empty cache directory was accepted with reuse=False'), m, False
                 h, g = m.next_h, m.next_g
